@@ -109,7 +109,7 @@ def variants_for(prop: str) -> List[Dict[str, Any]]:
     out.append({'name': 'generated twin: every guard clause `if c: ...; return` + rest rewritten as if/else', 'kind': 'twin', 'generator': 'guard2else'})
     # independent behaviour-preserving refactorings (seeded/_twins): each runs against its own property and against every property whose check
     # raised an alarm on it when it was first measured
-    for tw_dir in ('_twins', '_twins2'):
+    for tw_dir in ('_twins', '_twins2', '_twins3'):
         tw_index = SEEDED / tw_dir / 'index.json'
         if tw_index.exists():
             for tid, info in sorted(json.loads(tw_index.read_text()).items()):
